@@ -112,7 +112,7 @@ func C07(c *core.Child) {
 	c.Loop(func(i uint64, r *core.Rand) {
 		switch c.Stream {
 		case "safe":
-			o := idlm.SemOpts{MaxFiles: 4, MaxDefs: 5, Services: true, Constants: true, Defaults: true, Dirs: true, CyclicIncludes: true, DottedLocal: true}
+			o := idlm.SemOpts{MaxFiles: 4, MaxDefs: 5, Services: true, Constants: true, Defaults: true, Dirs: true, CyclicIncludes: true, DottedLocal: true, TypedefZoo: r.Chance(1, 3), ManyTypes: r.Chance(1, 4)}
 			o.Off = offFromArgs(c)
 			p := idlm.GenProgram(r, o)
 			lay := idlm.PlainLayout
